@@ -1,5 +1,12 @@
 //! Small deterministic PRNG (splitmix64 seeding + xoshiro256**). No external state.
 
+/// Progress ticks of the process (scheduling decisions, source reads): what a wall-clock watchdog looks at.
+pub static TICKS: std::sync::atomic::AtomicU64 = std::sync::atomic::AtomicU64::new(0);
+
+pub fn tick() {
+    TICKS.fetch_add(1, std::sync::atomic::Ordering::Relaxed);
+}
+
 #[derive(Clone, Debug)]
 pub struct Rng {
     s: [u64; 4],
